@@ -190,6 +190,19 @@ class P(Prop):
             if len(c.graph.nodes) > 13:
                 continue
             self.oracle(c)
+            if i % 3 == 0:
+                # the same Circuit object again after an in-place edit that keeps nodes and edges (a type change):
+                # every query must describe the circuit as it is now
+                gates = [g for g in c.graph.nodes if c.type(g) in gen.MULTI]
+                consts = [g for g in c.graph.nodes if c.type(g) in ("0", "1")]
+                if gates and self.rng.random() < 0.7:
+                    g = self.rng.choice(gates)
+                    c.set_type(g, self.rng.choice([t for t in gen.MULTI if t != c.type(g)]))
+                    self.oracle(c, tag=":after-set_type")
+                elif consts:
+                    k = self.rng.choice(consts)
+                    c.set_type(k, "1" if c.type(k) == "0" else "0")
+                    self.oracle(c, tag=":after-set_type")
             if self.too_many():
                 break
 
